@@ -704,6 +704,10 @@ func goCode(root string, unit string) string {
 		header("Model.GoSem")
 		text, errs := translateConfig(parseFile(root, "config/config.go"))
 		emit("config/config.go (struct, defaults, postprocess)", text, errs)
+	case "collection":
+		header("Model.GoRec", "Model.Json", "Model.Collection")
+		text, errs := translateCollection(parseFile(root, "pub/collection.go"))
+		emit("pub/collection.go (Harvest, harvestWithEmptyCount)", text, errs)
 	default:
 		b.WriteString("-- unknown unit " + unit + "\n")
 	}
